@@ -14,6 +14,15 @@ use versatiles_core::tilejson::TileJSON;
 use versatiles_core::types::*;
 use versatiles_core::utils::{compress, decompress, optimize_compression, recompress, CompressionGoal, TargetCompression};
 
+/// descriptive TileJSON strings that all five target formats can carry (MBTiles: rows of the metadata table)
+const META_STRINGS: [(&str, &str); 5] = [
+	("attribution", "(c) the \"contributors\" \u{00e4}"),
+	("author", "somebody"),
+	("license", "ODbL-1.0"),
+	("type", "overlay"),
+	("version", "7.1.0"),
+];
+
 fn payloads() -> Vec<(&'static str, Vec<u8>)> {
 	let mut two_k = Vec::new();
 	while two_k.len() < 2048 {
@@ -65,9 +74,14 @@ fn part_a(ctx: &Arc<Ctx>) {
 		for target in [None, Some(0u8), Some(1), Some(2)] {
 			for force in [false, true] {
 				for cont in ct::ALL_CONT {
-					cfgs.push((src_comp, target, force, cont, false));
+					cfgs.push((src_comp, target, force, cont, false, false));
 					if cont == Cont::Mbtiles {
-						cfgs.push((src_comp, target, force, cont, true));
+						cfgs.push((src_comp, target, force, cont, true, false));
+					}
+					// the compression of the source is corrected (override_compression) only after the converter
+					// has been wrapped around it
+					if matches!(cont, Cont::Versatiles | Cont::Tar) {
+						cfgs.push((src_comp, target, force, cont, false, true));
 					}
 				}
 			}
@@ -75,7 +89,7 @@ fn part_a(ctx: &Arc<Ctx>) {
 	}
 	let (ctxr, rtr, wpath, psr, cfgr): (&Ctx, _, _, _, _) = (ctx, &rt, work.0.clone(), &ps, &cfgs);
 	par_for(cfgs.len(), |i| {
-		let (src_comp, target, force, cont, alt_format) = cfgr[i];
+		let (src_comp, target, force, cont, alt_format, late_override) = cfgr[i];
 		let out_comp = target.unwrap_or(src_comp);
 		// MBTiles accepts only uncompressed png/jpg/webp or gzipped pbf: both formats are tried with every
 		// compression; a refusal by the writer is "not applicable", a conversion that reports success is judged
@@ -96,9 +110,13 @@ fn part_a(ctx: &Arc<Ctx>) {
 		let mut tj = TileJSON::default();
 		tj.set_string("name", "recompression \"test\" \u{00fc}").unwrap();
 		tj.set_string("description", "payload must survive").unwrap();
-		let src = MemSource::new("mem", tiles, format, ct::comp_from_id(src_comp)).with_tilejson(tj);
-		let label = format!("{} {} source {:?} -> target {:?} force={force}", cont.name(), ct::format_name(format), ct::comp_from_id(src_comp), target.map(ct::comp_from_id));
-		let case = json!({"cont": cont, "format": ct::format_name(format), "src_comp": src_comp, "target": target, "force": force});
+		for (k, v) in META_STRINGS {
+			tj.set_string(k, v).unwrap();
+		}
+		let first_label = if late_override { (src_comp + 1) % 3 } else { src_comp };
+		let src = MemSource::new("mem", tiles, format, ct::comp_from_id(first_label)).with_tilejson(tj);
+		let label = format!("{} {} source {:?}{} -> target {:?} force={force}", cont.name(), ct::format_name(format), ct::comp_from_id(src_comp), if late_override { " (declared by override_compression on the converter)" } else { "" }, target.map(ct::comp_from_id));
+		let case = json!({"cont": cont, "format": ct::format_name(format), "src_comp": src_comp, "target": target, "force": force, "late_override": late_override});
 		let mut cp = TilesConverterParameters::new_default();
 		cp.tile_compression = target.map(ct::comp_from_id);
 		cp.force_recompress = force;
@@ -110,6 +128,9 @@ fn part_a(ctx: &Arc<Ctx>) {
 				return;
 			}
 		};
+		if late_override {
+			conv.override_compression(ct::comp_from_id(src_comp));
+		}
 		// file-based targets: the path already holds an earlier export of the same coordinates whose payloads have the
 		// same lengths (every payload reversed), written by the same writer
 		let written = if cont.in_memory() {
@@ -190,6 +211,12 @@ fn part_a(ctx: &Arc<Ctx>) {
 				}
 				if r.get_tilejson().get_str("name") != Some("recompression \"test\" \u{00fc}") {
 					ctxr.violation("metadata lost by the conversion", &format!("{label}: {:?}", r.get_tilejson().as_string()), case.clone());
+				}
+				// the descriptive strings every target format has a place for
+				for (k, v) in META_STRINGS {
+					if r.get_tilejson().get_str(k) != Some(v) {
+						ctxr.violation(&format!("metadata string '{k}' does not survive the conversion"), &format!("{label}: {:?}", r.get_tilejson().as_string()), case.clone());
+					}
 				}
 			}
 		}
